@@ -243,7 +243,13 @@ def handle_path_command(args: argparse.Namespace) -> None:  # noqa: PLR0912
     if args.query is not None:
         query = args.query
     else:
-        query = args.path_file.read().strip()
+        try:
+            query = args.path_file.read().strip()
+        except UnicodeDecodeError as err:
+            if args.debug:
+                raise
+            sys.stderr.write(f"json path decode error: {err}\n")
+            sys.exit(1)
 
     try:
         path = jsonpath.JSONPathEnvironment(
@@ -299,7 +305,13 @@ def handle_pointer_command(args: argparse.Namespace) -> None:
     else:
         # Drop the line break that ends the file. Other trailing white space
         # is part of the last reference token.
-        pointer = args.pointer_file.read()
+        try:
+            pointer = args.pointer_file.read()
+        except UnicodeDecodeError as err:
+            if args.debug:
+                raise
+            sys.stderr.write(f"json pointer decode error: {err}\n")
+            sys.exit(1)
         if pointer.endswith("\n"):
             pointer = pointer[:-1]
 
